@@ -116,7 +116,8 @@ class KaniCrate:
         with open(os.path.join(self.dir, "Cargo.toml"), "w") as f:
             f.write('[package]\nname = "kani_%s"\nversion = "0.0.0"\nedition = "2021"\n\n[dependencies]\n%s\n[workspace]\n\n'
                     '[lints.rust]\nunexpected_cfgs = { level = "allow" }\n' % (self.name.replace("-", "_"), deps))
-        shutil.copy(os.path.join(common.REPO, "Cargo.lock"), os.path.join(self.dir, "Cargo.lock"))
+        if os.path.exists(os.path.join(common.REPO, "Cargo.lock")):
+            shutil.copy(os.path.join(common.REPO, "Cargo.lock"), os.path.join(self.dir, "Cargo.lock"))
         os.makedirs(os.path.join(self.dir, "src"), exist_ok=True)
         body = "#![allow(unused, non_snake_case, non_upper_case_globals, clippy::all)]\n"
         body += "use quantities::prelude::*;\n"
